@@ -74,6 +74,7 @@ type Verifier struct {
 	localNames       map[*Object]string
 	writeLog         map[*Object]bool
 	ringUsed         map[string]bool
+	frameChecks      int            // writes to entry objects compared with the modifies clause of the function under contract
 	moduleVars       map[*Term]bool // variables that denote elements of an abstract abelian group (module layer)
 	layerKeys        map[*Contract]string
 	curLayerKey      string
@@ -688,6 +689,7 @@ func (v *Verifier) noteWrite(fr *Frame, st *State, o *Object, path []PE) {
 	if !o.Entry || !v.frameOn {
 		return
 	}
+	v.frameChecks++
 	for _, a := range v.allowed {
 		if a.obj == o && len(a.path) <= len(path) && samePath(a.path, path[:len(a.path)]) {
 			return
